@@ -218,8 +218,10 @@ REQUIRED_BOUNDARIES = {
              "epoch=fork_epoch-1:head-past-fork"],
     "pslash": ["index=count", "index=count-1", "slot2=slot1+1", "epoch=fork_epoch-1:head-past-fork"],
     "aslash": ["index=count", "indices=0", "epoch=fork_epoch-1:head-past-fork"],
-    "syncmsg": _SYNC + ["index=count"],
-    "contrib": _SYNC + ["subcommittee_index=count", "subcommittee_index=count-1", "participants=0", "index=count"],
+    # multi-seat validators: honest messages on the subnet of the first seat AND on the subnets of the later seats
+    "syncmsg": _SYNC + ["index=count", "first-subnet-of-multi-seat-validator", "non-first-subnet-of-multi-seat-validator"],
+    "contrib": _SYNC + ["subcommittee_index=count", "subcommittee_index=count-1", "participants=0", "index=count",
+                        "aggregator-in-non-first-subcommittee-of-multi-seat-validator"],
 }
 
 
@@ -227,8 +229,9 @@ def boundary_coverage(events):
     out = {}
     for e in events:
         if e["ev"] == "Msg" and e.get("bnd"):
-            d = out.setdefault(e["topic"], {}).setdefault(e["bnd"], collections.Counter())
-            d[e["verdict"]] += 1
+            for tag in e["bnd"].split("|"):
+                d = out.setdefault(e["topic"], {}).setdefault(tag, collections.Counter())
+                d[e["verdict"]] += 1
     return {t: {b: dict(c) for b, c in v.items()} for t, v in out.items()}
 
 
